@@ -411,4 +411,48 @@ Proof.
     split; [exact Hne|]. split; [exact G|]. rewrite Ht, last_last. reflexivity.
 Qed.
 
+(* the whole text as one occurrence: a text whose lower-cased words are a stored name is matched
+   from its first to its last word *)
+Theorem whole_text_matched sp v :
+  get_out (lwords O text) (outs tr) = Some (sp, v) ->
+  let wps := filter (is_word_piece O) (pieces O text) in
+  In (occurrence_tok wps (List.last wps {| pstart := 0; ptext := [] |}) v) (t_iter O tr text).
+Proof.
+  intros G wps. apply scan_exact. exists [], wps, [], sp, v. fold wps.
+  assert (E : lws wps = lwords O text).
+  { unfold lws, lwords, words, wps. rewrite map_map. reflexivity. }
+  split; [rewrite app_nil_r; reflexivity|]. split.
+  - intro H. destruct (out_known _ _ G) as [Hne _]. apply Hne. rewrite <- E, H. reflexivity.
+  - split; [rewrite E; exact G | reflexivity].
+Qed.
+
+(* with single-word names only, the scan is a per-word look-up: one token for every word piece whose
+   lower-cased text is stored, positioned on that piece *)
+Theorem single_word_scan (t : Trie.tok V) :
+  (forall p o, In (p, o) (outs tr) -> length p = 1%nat) ->
+  (In t (t_iter O tr text) <->
+   exists p sp v, In p (filter (is_word_piece O) (pieces O text)) /\
+                  get_out [lower O (ptext p)] (outs tr) = Some (sp, v) /\
+                  t = {| tstart := pstart p; tend := pend p; tstring := slice text (pstart p) (pend p); tvalue := Some v |}).
+Proof.
+  intro H1. rewrite scan_exact. split.
+  - intros [pre [mid [post [sp [v [E [Hne [G Ht]]]]]]]].
+    assert (L : length (lws mid) = 1%nat) by (apply (H1 _ (sp, v)); apply get_out_in; exact G).
+    unfold lws in L. rewrite map_length in L. destruct mid as [|p [|q mid]]; try discriminate.
+    exists p, sp, v. split; [rewrite E; apply in_or_app; right; left; reflexivity|]. split; [exact G | exact Ht].
+  - intros [p [sp [v [Hin [G Ht]]]]]. apply in_split in Hin as [pre [post E]].
+    exists pre, [p], post, sp, v. split; [exact E|]. split; [discriminate|]. split; [exact G | exact Ht].
+Qed.
+
 End TrieProofs.
+
+(* what add() stored under a path is a name with exactly these lower-cased words *)
+Lemma stored_words {V} O (ops : list (str * V)) p n v : stored O ops p = Some (n, v) -> lwords O n = p /\ In (n, v) ops.
+Proof.
+  induction ops as [|[n0 v0] ops IH]; [discriminate|]. simpl.
+  destruct (stored O ops p) as [o|] eqn:S.
+  - intro H. inversion H; subst. destruct (IH eq_refl) as [I1 I2]. split; [exact I1 | right; exact I2].
+  - destruct n0 as [|c n0]; [discriminate|]. destruct (lwords O (c :: n0)) as [|w ws] eqn:E; [discriminate|].
+    destruct (path_eqb p (w :: ws)) eqn:Ep; [|discriminate]. apply path_eqb_eq in Ep. intro H. inversion H; subst.
+    split; [exact E | left; reflexivity].
+Qed.
